@@ -32,7 +32,7 @@ META = {
 
 # ----------------------------------------------------------------------------- abstract syntax
 # layout: ["b", w] | ["g", w] | ["s", [[name, lay]..]] | ["u", [[name, lay]..]] | ["a", lay, n]
-# object: ["V", lay, store] | ["P", lay, idx, [stores]] | ["i", v] | ["D", [[key, obj]..]] | ["L", [obj..]]
+# object: ["V", lay, store] | ["P", lay, idx, [stores]] | ["P", lay, [idx..], [stores row-major], [dims..]] (nested) | ["i", v] | ["D", [[key, obj]..]] | ["L", [obj..]]
 # selection: ["m", "C"|"L"|"R"|"A"] | ["I", [key..]] | ["M", [[key, sel]..]]
 # key: str (member name) or int (index)
 
@@ -52,6 +52,8 @@ def rpn(x) -> str:
     if t == "V":
         return f"{rpn(x[1])},V{x[2]}"
     if t == "P":
+        if len(x) > 4:  # nested: index values, signals in row-major order, dimensions (outermost first)
+            return f"{rpn(x[1])},P{'_'.join(map(str, x[2]))}.{'x'.join(map(str, x[4]))}.{'/'.join(map(str, x[3]))}"
         return f"{rpn(x[1])},P{x[2]}.{'/'.join(map(str, x[3]))}"
     if t == "i":
         return f"i{x[1]}"
@@ -92,8 +94,12 @@ def parse(s: str):
         elif c == "V":
             st.append(["V", st.pop(), int(rest)])
         elif c == "P":
-            i, ss = rest.split(".")
-            st.append(["P", st.pop(), int(i), [int(x) for x in ss.split("/")]])
+            parts = rest.split(".")
+            if len(parts) == 3:
+                st.append(["P", st.pop(), [int(x) for x in parts[0].split("_")], [int(x) for x in parts[2].split("/")],
+                           [int(x) for x in parts[1].split("x")]])
+            else:
+                st.append(["P", st.pop(), int(parts[0]), [int(x) for x in parts[1].split("/")]])
         elif c == "a":
             st.append(["a", st.pop(), int(rest)])
         elif c in "suDM":
@@ -170,10 +176,16 @@ class Side:
         if t == "V":
             return self.signal(obj[1], obj[2])
         if t == "P":
-            elems = [self.signal(obj[1], s) for s in obj[3]]
-            isig = Signal(range(max(2, len(elems))))
-            self.idx.append((isig, obj[2]))
-            return Array(elems)[isig]
+            elems: Any = [self.signal(obj[1], s) for s in obj[3]]
+            idxs, dims = ([obj[2]], [len(elems)]) if len(obj) == 4 else (obj[2], obj[4])
+            for d in reversed(dims[1:]):  # nested Arrays, innermost dimension first
+                elems = [Array(elems[j : j + d]) for j in range(0, len(elems), d)]
+            res: Any = Array(elems)
+            for v, d in zip(idxs, dims):  # arr[i][j][k]: ArrayProxy of ArrayProxies of ...
+                isig = Signal(range(max(2, d)))
+                self.idx.append((isig, v))
+                res = res[isig]
+            return res
         if t == "i":
             return obj[1]
         if t == "D":
@@ -290,7 +302,12 @@ class Node:
         if t == "V":
             return Node("val" if obj[1][0] in "bg" else "view", obj[1], obj[2], 0)
         if t == "P":
-            return Node("val" if obj[1][0] in "bg" else "view", obj[1], 0, 0, (obj[2], obj[3]))
+            flat = obj[2]
+            if len(obj) > 4:  # the view selected by arr[i][j][k], signals listed in row-major order
+                flat = 0
+                for v, d in zip(obj[2], obj[4]):
+                    flat = flat * d + v
+            return Node("val" if obj[1][0] in "bg" else "view", obj[1], 0, 0, (flat, obj[3]))
         if t == "i":
             return Node("int", value=obj[1])
         if t == "D":
@@ -544,8 +561,15 @@ def gen_obj(rng, lay, st: _Stores, rhs: bool, depth: int = 2):
         k, l = rng.choice(lay[1])
         return ["D", [[k, gen_obj(rng, l, st, rhs, depth - 1)]]]
     if r < 0.5 and not (_EXCLUDE and _has_array(lay)):  # excluded region (proposed finding F-b7-2): ArrayProxy over array layouts
-        n = rng.randint(1, 3)
-        return ["P", lay, rng.randrange(n), [st.new() for _ in range(n)]]
+        depth_p = rng.choice([1, 1, 2, 3])
+        if depth_p == 1:
+            n = rng.randint(1, 3)
+            return ["P", lay, rng.randrange(n), [st.new() for _ in range(n)]]
+        dims = [rng.randint(1, 2) for _ in range(depth_p)]
+        total = 1
+        for d in dims:
+            total *= d
+        return ["P", lay, [rng.randrange(d) for d in dims], [st.new() for _ in range(total)], dims]
     return ["V", lay, st.new()]
 
 
@@ -611,6 +635,24 @@ def directed_calls():
         (["P", U, 1, [0, 1]], V(U), m("R")), (["P", U, 1, [0, 1]], ["P", U, 0, [5, 6]], m("A")),
         (V(S2), V(["b", 3]), m("R")), (V(["s", [["a", ["b", 3]]]]), V(["b", 3], 1), m("R")), (V(["b", 3]), V(["s", [["a", ["b", 3]]]], 1), m("A")),
         (V(["b", 4]), V(["s", [["a", ["b", 3]]]], 1), m("R")), (V(["a", ["s", [["a", ["b", 2]]]], 1]), V(["b", 2], 1), m("R")),
+        # nested ArrayProxies arr[i][j] / arr[i][j][k]: same members in another order, another member of equal width
+        (["P", S2, [1, 0, 1], list(range(8)), [2, 2, 2]], ["P", ["s", [["y", ["b", 1]], ["x", ["b", 2]]]], [0, 1, 1], list(range(8)), [2, 2, 2]], m("C")),
+        (["P", S2, [1, 0, 1], list(range(8)), [2, 2, 2]], ["P", ["s", [["x", ["b", 2]], ["w", ["b", 1]]]], [0, 1, 1], list(range(8)), [2, 2, 2]], m("C")),
+        (["P", S2, [1, 0, 1], list(range(8)), [2, 2, 2]], ["P", ["s", [["x", ["b", 2]], ["w", ["b", 1]]]], [0, 1, 1], list(range(8)), [2, 2, 2]], m("R")),
+        (["P", S2, [0, 0, 0], [0, 1], [1, 2, 1]], V(["s", [["y", ["b", 1]], ["x", ["b", 2]]]]), m("A")),
+        (V(S2), ["P", ["s", [["y", ["b", 1]], ["x", ["b", 2]]]], [1, 1], list(range(4)), [2, 2]], m("L")),
+        (["P", N, [1, 1], list(range(4)), [2, 2]], ["P", N2, [0, 1, 0], list(range(4)), [1, 2, 2]], ["M", [["y", ["I", ["q"]]]]]),
+        (["P", U, [1, 0], list(range(4)), [2, 2]], ["P", U, [0, 1, 0], list(range(4)), [2, 2, 1]], m("A")),
+        (["P", ["b", 3], [1, 0, 1], list(range(8)), [2, 2, 2]], ["P", ["b", 3], [1, 1], list(range(4)), [2, 2]], m("R")),
+        # a dict-held signal (explicit shape, not strict) against a signed member of a view (strict only, an Operator)
+        (["D", [["a", V(["g", 4])]]], V(["s", [["a", ["g", 8]]]]), m("A")), (V(["s", [["a", ["g", 8]]]]), ["D", [["a", V(["g", 4])]]], m("A")),
+        (["D", [["a", V(["g", 8])]]], V(["s", [["a", ["g", 8]], ["b", ["b", 1]]]]), m("L")), (["L", [V(["g", 3])]], V(["a", ["g", 2], 1]), m("R")),
+        (["D", [["a", V(["b", 4])]]], V(["s", [["a", ["g", 4]], ["b", ["b", 1]]]]), m("C")),
+        # an iterable selection recurses with ALL: the left superset of a selected nested member must raise
+        (V(["s", [["x", ["s", [["a", ["b", 1]], ["b", ["b", 2]]]]], ["y", ["b", 1]]]]), V(["s", [["x", ["s", [["a", ["b", 1]]]]], ["y", ["b", 1]]]]), ["I", ["x"]]),
+        (V(["s", [["x", ["s", [["a", ["b", 1]]]]], ["y", ["b", 1]]]]), V(["s", [["x", ["s", [["a", ["b", 1]], ["b", ["b", 2]]]]], ["y", ["b", 1]]]]), ["I", ["x"]]),
+        (V(["s", [["x", ["s", [["a", ["b", 1]], ["b", ["b", 2]]]]], ["y", ["b", 1]]]]), V(["s", [["x", ["s", [["a", ["b", 1]], ["b", ["b", 2]]]]], ["y", ["b", 1]]]]), ["I", ["x"]]),
+        (V(["a", ["s", [["a", ["b", 1]], ["b", ["b", 2]]]], 2]), ["L", [V(["s", [["a", ["b", 1]]]]), V(["s", [["a", ["b", 1]], ["b", ["b", 2]]]])]], ["I", [0]]),
         (["D", []], ["D", []], m("R")), (["D", []], V(S2), m("C")), (V(S2), V(["s", [["w", ["b", 1]]]], 1), m("C")),
         (["D", [["x", V(["b", 2])]]], V(["b", 2], 1), m("R")), (V(["b", 2]), ["L", [V(["b", 2])]], m("R")),
         (V(S2), V(S2, 1), ["I", []]), (V(S2), V(S2, 1), ["M", []]), (V(["b", 2]), V(["b", 2], 1), ["I", []]),
@@ -625,7 +667,7 @@ def _renumber(obj, st: "_Stores"):
     if t == "V":
         return ["V", obj[1], st.new()]
     if t == "P":
-        return ["P", obj[1], obj[2], [st.new() for _ in obj[3]]]
+        return ["P", obj[1], obj[2], [st.new() for _ in obj[3]]] + obj[4:]
     if t == "D":
         return ["D", [[k, _renumber(o, st)] for k, o in obj[1]]]
     if t == "L":
@@ -644,7 +686,7 @@ EXCLUDED_WITNESSES = [
 def gen_cases(ctx: Check) -> list[Case]:
     rng = ctx.rng("gen")
     cases = [_mk([(_renumber(l, _Stores()), _renumber(r, _Stores()), f) for l, r, f in directed_calls()], "directed")]
-    for _ in range(ctx.pick(120, 1500)):
+    for _ in range(ctx.pick(300, 1500)):
         cases.append(_mk([gen_call(rng) for _ in range(10)], "random"))
     return cases
 
